@@ -1483,6 +1483,28 @@ fn one_world(c: &mut Ctx, rt: &tokio::runtime::Runtime, fam: &str, idx: u64) {
     }
 }
 
+/// For C17: how an honest positive answer validates when its RRSIG carries the given inception
+/// and expiration (offsets from now, modulo 2^32). Everything else in the hierarchy is signed
+/// with an ordinary validity period around now.
+pub(crate) fn sigtime_probe(rt: &tokio::runtime::Runtime, rng: &mut Rng, inc_off: i64, exp_off: i64) -> Result<&'static str, String> {
+    let (world, _) = build_world(rng)?;
+    let world = Arc::new(world);
+    let n = nm(&[b"www"], &world.zones[5].apex);
+    let mut r = world.respond(&n, T_A);
+    let now = now_secs();
+    let inc = (now as i64 + inc_off).rem_euclid(1 << 32) as u32;
+    let exp = (now as i64 + exp_off).rem_euclid(1 << 32) as u32;
+    if !resign(&world, &mut r, &n, T_A, None, None, inc, exp) {
+        return Err("could not re-sign".into());
+    }
+    let wire = to_wire(rng.u16(), &n, T_A, &r);
+    match validate(rt, &world, UpFault::None, rng.u64(), &wire) {
+        (Out::State(s), _) => Ok(s),
+        (Out::Error(e), _) => Err(format!("error: {}", e)),
+        (Out::Panic(pi), _) => Err(format!("panic: {} at {}:{}", pi.msg, pi.file, pi.line)),
+    }
+}
+
 /// An upstream that serves one world and, once switched, another.
 struct SwitchUp {
     a: Arc<World>,
